@@ -680,7 +680,7 @@ pub fn build_walker(
         Source::Path => start!(arg, base.as_path().walk(), |b| base.as_path().walk_with_behavior(b)),
         Source::Glob { expr, rooted } => {
             // safety net: the simulator never walks outside its world
-            let ups = expr.split('/').take_while(|c| *c == "..").count();
+            let ups = expr.split('/').take_while(|c| dot_kind(c) == Some("..")).count();
             if !*rooted && ups > depth_of(&w.base) {
                 return Err(format!("glob {:?} from base {:?} would leave the world", expr, w.base));
             }
